@@ -193,3 +193,53 @@ Fixpoint qstereo_filter (t : starget) (q : squery) (ms : list mapping) : list ma
 (* comparison used by the correspondence *)
 Definition sres_eqb (x y : list mapping * option pyexn) : bool :=
   maps_eqb (fst x) (fst y) && option_eqb pyexn_eqb (snd x) (snd y).
+
+(* ---------------------------------------------------------------------------------------------------------------
+   MoleculeIsomorphism.get_mapping(other, automorphism_filter, match_stereo=True): control flow.
+   For every mapping of self._get_mapping(other, automorphism_filter=True, ...):
+       sub = other.substructure(mapping.values()); fm = self.get_fast_mapping(sub)
+       if not fm: continue
+       yield fm
+       if not automorphism_filter: for auto in sub.get_automorphism_mapping(): yield {n: auto[m] for n, m in fm.items()}
+   OBSERVED per mapping (not modelled here): fm -- get_fast_mapping compares canonical stereo SMILES (C01) -- and the
+   substructure's _chiral_morgan classes and bonds, from which the automorphisms are COMPUTED by Iso.get_automorphism_mapping.
+   --------------------------------------------------------------------------------------------------------------- *)
+Fixpoint compose_fm (fm auto : mapping) : pyres mapping :=       (* {n: auto[m] for n, m in fm.items()} *)
+  match fm with
+  | [] => Ok []
+  | (n, m) :: r => match zget auto m, compose_fm r auto with
+                   | Some y, Ok l => Ok ((n, y) :: l)
+                   | None, _ => Err KeyError
+                   | _, Err e => Err e
+                   end
+  end.
+
+Fixpoint all_ok {T : Type} (l : list (pyres T)) : pyres (list T) :=
+  match l with
+  | [] => Ok []
+  | Ok x :: r => match all_ok r with Ok xs => Ok (x :: xs) | Err e => Err e end
+  | Err e :: _ => Err e
+  end.
+
+Definition ms_one {B : Type} (beq : B -> B -> bool) (flt : bool) (fm : option mapping)
+           (sub_classes : list (Z * Z)) (sub_bonds : list (Z * list (Z * B))) : pyres (list mapping) :=
+  match fm with
+  | None => Ok []                                          (* get_fast_mapping returned None *)
+  | Some [] => Ok []                                       (* an empty dict is falsy too *)
+  | Some f =>
+      if flt then Ok [f]
+      else match get_automorphism_mapping beq sub_classes sub_bonds with
+           | Err e => Err e
+           | Ok autos => match all_ok (map (compose_fm f) autos) with
+                         | Ok l => Ok (f :: l)
+                         | Err e => Err e
+                         end
+           end
+  end.
+
+Definition match_stereo_stream {B : Type} (beq : B -> B -> bool) (flt : bool)
+           (obs : list (option mapping * list (Z * Z) * list (Z * list (Z * B)))) : pyres (list mapping) :=
+  match all_ok (map (fun o => let '(fm, cl, bd) := o in ms_one beq flt fm cl bd) obs) with
+  | Ok ls => Ok (concat ls)
+  | Err e => Err e
+  end.
